@@ -101,6 +101,8 @@ def check(prog: Program, rep):
     c14.splice_rule(prog, px, "C14.R1")
     from rules.providers import given_weights_integral
     given_weights_integral(prog, rep, "C08.R8", ["kMinPathError"])
+    from rules.providers import given_weights_above_coefficient_threshold
+    given_weights_above_coefficient_threshold(prog, rep, "C08.R8", ["kMinPathError"])
     # the self-check of positions / path lengths compares with a tolerance (sums of non-integer lengths are not integers)
     ap = prog.cls("AbstractPathModelDAG")
     for mname in ("verify_edge_position", "verify_path_length"):
